@@ -808,11 +808,15 @@ func (x *Exec) doAppend(fr *Frame, st *State, in ssa.Instruction, s, t Val) Val 
 	}
 	st.hv++
 	st.addIdxSeq(sAdd(s.Off, s.Len), s.Arr)
+	arrT := x.decls.Define("app.arr", "Int", sIte(fits, s.Arr, nr))
+	if arrT != s.Arr {
+		x.alias[arrT] = append(x.alias[arrT], s.Arr, nr)
+	}
 	return Val{K: KSlice, T: s.T,
-		Arr: sIte(fits, s.Arr, nr),
-		Off: sIte(fits, s.Off, "0"),
+		Arr: arrT,
+		Off: x.decls.Define("app.off", "Int", sIte(fits, s.Off, "0")),
 		Len: sAdd(s.Len, m),
-		Cap: sIte(fits, s.Cap, ncap)}
+		Cap: x.decls.Define("app.cap", "Int", sIte(fits, s.Cap, ncap))}
 }
 
 func guardOf(g string) string {
